@@ -362,7 +362,80 @@ def check_linear(case):
     return out, calls
 
 
+def check_counts(case):
+    """The multi-sequence entry points called several times in one process with different numbers of sequences."""
+    eps = entry_points()
+    kind, n, show, save = eps[case["ep"]]
+    out = []
+    calls = 0
+    P = plt()
+    pool = ["KKEEGGSSPP", "KRKRKRKRGS", "GSGSGSGSGSGSGSGSKE", "EEEEEKGSGS", "PPPPKDGSTY"]
+    cfg = {"label": None, "title": None, "legend": True, "xLim": 1, "yLim": 1, "font": 10}
+    for cnt in case["counts"]:
+        objs = [SP(s_) for s_ in pool[:cnt]]
+        global SEQS
+        for g in (True, False):
+            P.close("all")
+            calls += 1
+            try:
+                ret = show(objs, cfg, g)
+            except Exception as e:  # noqa
+                out.append({"key": "plot-raises:" + case["ep"], "what": "%s with %d unlabelled sequences (after calls with %r) raised %r"
+                            % (case["ep"], cnt, case["counts"], e), "case": case})
+                P.close("all")
+                continue
+            fig = fig_of(ret) if g else P.gcf()
+            judge_fig(inspect(fig if fig is not None else P.gcf()), kind, objs, cfg, case["ep"], "show,%d seqs" % cnt, case, out)
+            P.close("all")
+        calls += 1
+        with SaveSpy(False) as spy:
+            try:
+                save(objs, cfg, "/nonexistent/x.png", "png")
+            except Exception as e:  # noqa
+                out.append({"key": "plot-raises:" + case["ep"], "what": "%s save with %d unlabelled sequences raised %r"
+                            % (case["ep"], cnt, e), "case": case})
+        if spy.seen:
+            judge_fig(spy.seen[-1][0], kind, objs, cfg, case["ep"], "save,%d seqs" % cnt, case, out)
+        P.close("all")
+    return out, calls
+
+
+def check_polygons(case):
+    """Polygons read once from a real figure; every composition of total lo..hi classified by the real classifier."""
+    out = []
+    P = plt()
+    P.close("all")
+    ret = SP("KKEEGGSSPP").show_phaseDiagramPlot(getFig=True)
+    fig = fig_of(ret) or P.gcf()
+    d = inspect(fig)
+    P.close("all")
+    if d is None or len(d["polygons"]) != 5:
+        return [{"key": "region-polygons", "what": "could not read five polygons", "case": case}], 1
+    polys = [[(frac(x), frac(y)) for x, y in pg] for pg in d["polygons"]]
+    calls = 1
+    for N in range(case["lo"], case["hi"] + 1):
+        for p in range(N + 1):
+            for n in range(N - p + 1):
+                seq = "K" * p + "E" * n + "G" * (N - p - n)
+                calls += 1
+                try:
+                    region = SP(seq).get_phasePlotRegion()
+                except Exception:  # noqa
+                    continue     # totality is C08's job
+                if not (isinstance(region, int) and 1 <= region <= 5) or not inside_closed(polys[region - 1], (F(p, N), F(n, N))):
+                    out.append({"key": "marker-outside-its-region", "what": "(n+,n-,N)=(%d,%d,%d): classified region %r but (%s,%s) lies "
+                                "outside drawn polygon %r" % (p, n, N, region, F(p, N), F(n, N), d["polygons"][region - 1] if region in range(1, 6) else None),
+                                "case": dict(case, comp=[p, n, N - p - n])})
+                    if len(out) > 20:
+                        return out, calls
+    return out, calls
+
+
 def check_case(case):
+    if case["kind"] == "counts":
+        return check_counts(case)
+    if case["kind"] == "polygons":
+        return check_polygons(case)
     if case["kind"] == "region":
         v, _ = check_region(case)
         return v, 1
@@ -384,6 +457,9 @@ def shard(cases):
             acc.out(("region", R.region(p, n, p + n + z)))
             if p and n:
                 acc.nontrivial += 1
+        elif case["kind"] == "polygons":
+            acc.nontrivial += 1
+            acc.out(("polygons", case["lo"]))
         else:
             acc.nontrivial += 1
             acc.out((case["kind"], case.get("ep"), case.get("seq")))
@@ -395,8 +471,13 @@ def shard(cases):
 
 
 def run(tier, seed, t0):
-    NK = 12 if tier == "quick" else 30
+    NK = 26 if tier == "quick" else 40
+    NP = 80 if tier == "quick" else 150
     cases = [{"kind": "region", "comp": c} for c in R.compositions(NK)]
+    step = 4 if tier == "quick" else 3
+    cases += [{"kind": "polygons", "lo": lo, "hi": min(NP, lo + step - 1)} for lo in range(NK + 1, NP + 1, step)]
+    for ep in ("plots.multiple_phasePlot", "plots.multiple_phasePlot2", "plots.multiple_uverskyPlot", "plots.multiple_uverskyPlot2"):
+        cases.append({"kind": "counts", "ep": ep, "counts": [3, 5, 2, 1, 4]})
     cfgs = []
     for label, title, legend, xl, yl, font in itertools.product(("", "x", LONGLABEL), (None, "My title"), (True, False),
                                                                  (1, 0.5), (1, 0.5), (10, 6)):
@@ -423,14 +504,16 @@ def run(tier, seed, t0):
         PROP, tier, seed, acc, t0,
         rule="(1) region agreement: every composition (n+,n-,n0) of total 1..%d through show_phaseDiagramPlot(getFig=True) on the Agg "
              "backend: one marker at (f+,f-), five polygons read back from the figure, vertices taken as the decimals they denote, the "
-             "exact rational marker must lie (closed) inside the polygon whose index is get_phasePlotRegion(). (2) entry points x "
+             "exact rational marker must lie (closed) inside the polygon whose index is get_phasePlotRegion(); beyond that, up to total %d, the polygons are read once from a "
+             "real figure and every composition is classified by the real get_phasePlotRegion() and tested for containment; the "
+             "multi-sequence entry points are called with 3,5,2,1,4 unlabelled sequences in turn in one process. (2) entry points x "
              "configurations: %d entry point families (show with getFig True/False + save; object methods and the plots module, "
              "single / multiple / multiple2) x the full product label{'', 'x', long} x title{default,custom} x legend x xLim{1,.5} x "
              "yLim{1,.5} x font{10,6} (96 configurations) on three sequences: markers at the true coordinates, requested title, axis "
              "labels, limits, point labels and font, a figure returned when getFig; every entry point x {png,pdf,svg} written to a "
              "real temp file. (3) linear plots: show/save_linear{NCPR,FCR,Sigma,Hydropathy} x windows: N bars centred on 1..N with "
              "the heights of get_linear_*. save_* figures are inspected at the moment savefig is called. non-trivial = all but "
-             "single-charge-type region cases" % (NK, len(ep_sel)),
+             "single-charge-type region cases" % (NK, NP, len(ep_sel)),
         bounds={"region_K": NK, "entry_points": len(ep_sel), "configurations": len(cfgs), "linear_sequences": len(lin_seqs)},
         assumptions=["dont-care: byte format of the written file, legend contents, label offsets",
                      "getFig returns the matplotlib.pyplot module; the current figure is read from it"],
